@@ -1,6 +1,7 @@
 // @append src/clock.rs
 // @requires kv_param_peek.rs
 // @requires kv_clock_force.rs
+// @requires kv_storage_place.rs
 // C05: clocks keep exact audio time (one update step from ANY clock state), publication to the
 // handle, start-time resolution, and the reader/writer interleavings of the two-word time.
 include!(concat!(env!("KV_HARNESS_DIR"), "/lib/libm.rs"));
